@@ -89,7 +89,10 @@ def h_to_subtree(c, n):
     removed = [i for i in range(1, n) if c.choice(f"rm{i}", 2)]
     form = c.pick("form", ["list", "dict", "none"])
     m = [] if form == "list" else ({} if form == "dict" else None)
-    out = to_subtree(t, removed, out_mapping=m)
+    # `removals` is documented as an Iterable: list, set, ndarray and one-shot iterators must all work
+    as_ = c.pick("removals_as", ["list", "set", "ndarray", "generator", "filter"])
+    arg = {"list": list(removed), "set": set(removed), "ndarray": np.array(removed, dtype=np.int64), "generator": (i for i in removed), "filter": filter(lambda i: True, list(removed))}[as_]
+    out = to_subtree(t, arg, out_mapping=m)
     kept = [i for i in range(n) if i not in _closure(a["pid"], removed)]
     _check_sub(c, "to_subtree", t, a, out, kept, m)
     # a second, different cut of the same tree is not affected by the first one
@@ -97,6 +100,18 @@ def h_to_subtree(c, n):
     out2 = to_subtree(t, removed2)
     _check_sub(c, "to_subtree.second", t, a, out2, [i for i in range(n) if i not in _closure(a["pid"], removed2)])
     c.output("n_out", out.number_of_nodes())
+
+
+def h_to_subtree_once(c, n):
+    """Larger trees under every numbering: a removed node takes its whole subtree with it even when descendants are stored BEFORE it."""
+    from swcgeom.core import to_subtree
+
+    t, a = _tree(c, n)
+    removed = [i for i in range(1, n) if c.choice(f"rm{i}", 2)]
+    out = to_subtree(t, removed)
+    kept = [i for i in range(n) if i not in _closure(a["pid"], removed)]
+    _check_sub(c, "to_subtree4", t, a, out, kept)
+    c.reachable("descendant_stored_before_removed_ancestor", any(d < r for r in removed for d in descendants(a["pid"], r)))
 
 
 def h_cut_tree(c, n, kind):
@@ -244,10 +259,11 @@ def h_neurites(c, n):
         _check_sub(c, f"dendrites.{k}", t, a, o, descendants(pid, k))
 
 
-REACH = {"cut_by_order": ["something_cut"], "cut_short_tip": ["something_cut"]}
+REACH = {"cut_by_order": ["something_cut"], "cut_short_tip": ["something_cut"], "to_subtree_any_numbering_4": ["descendant_stored_before_removed_ancestor"]}
 HARNESSES = [
     H("get_subtree", h_get_subtree, quick=[dict(n=k) for k in (1, 2, 3, 4)], thorough=[dict(n=5)], functions=FUNCTIONS, bounds="every numbering (root 0) of every tree with n<=4/5 nodes, every start node, list/dict mapping, function and Node.subtree forms"),
-    H("to_subtree", h_to_subtree, quick=[dict(n=k) for k in (2, 3)], thorough=[dict(n=4)], functions=FUNCTIONS, bounds="n<=3/4, every removal set not containing the root, twice on the same tree"),
+    H("to_subtree", h_to_subtree, quick=[dict(n=k) for k in (2, 3)], thorough=[dict(n=4)], functions=FUNCTIONS, bounds="n<=3/4, every removal set not containing the root (given as list / set / ndarray / generator / filter object), twice on the same tree"),
+    H("to_subtree_any_numbering_4", h_to_subtree_once, quick=[dict(n=4)], thorough=[dict(n=5)], functions=FUNCTIONS, bounds="n=4/5: every numbering (children may precede parents), every removal set, one cut"),
     H("cut_tree", h_cut_tree, quick=[dict(n=k, kind=kd) for k in (2, 3, 4) for kd in ("enter", "leave")], thorough=[dict(n=5, kind=kd) for kd in ("enter", "leave")], functions=FUNCTIONS,
       bounds="n<=4/5, every verdict pattern of the callback (root kept)"),
     H("cut_by_type", h_cut_by_type, quick=[dict(n=3, cls="type"), dict(n=3, cls="axon"), dict(n=3, cls="dendrite")], thorough=[dict(n=4, cls="type"), dict(n=4, cls="axon"), dict(n=4, cls="dendrite")], functions=FUNCTIONS,
